@@ -320,6 +320,15 @@ def _case(mn, mx):
         ("A4z_old_untouched", "forall(lambda c: implies(old(alloc(c)), c.active == old(c.active) and c.left is old(c.left) and c.right is old(c.right) and c.gap == old(c.gap) and c.equality == old(c.equality) and c.unsatisfiable == old(c.unsatisfiable)), 'ref:Constraint')"),
         ("A4w_old_variables_keep_blocks", "forall(lambda v: implies(old(alloc(v)), v.block is old(v.block) and v.scale == old(v.scale)), 'ref:Variable')"),
         ("A5_prewf", "prewf_list(constraints, variables)"),
+        # what Blocks.__init__ needs (contracts/vpsc.py): the solver's variables are new objects of positive weight, and every
+        # ACTIVE constraint (of an earlier layout) joins variables that existed before this call
+        ("A6_variables_are_new", "forall(lambda i: implies(0 <= i < len(variables), fresh(variables[i]) and variables[i].weight > 0))"),
+        ("A6a_new_constraints_are_inactive", "forall(lambda c: implies(isa(c, 'Constraint') and not old(alloc(c)), listed(constraints, c) and not c.active), 'ref:Constraint')"),
+        ("A6a2_old_constraints_join_old_variables", "forall(lambda c: implies(isa(c, 'Constraint') and old(alloc(c)) and old(c.active), old(c.left) is not None and old(c.right) is not None "
+                                                    "and old(alloc(c.left)) and old(alloc(c.right))), 'ref:Constraint')"),
+        ("A6b_active_ends_are_old", "forall(lambda c: implies(isa(c, 'Constraint') and c.active, c.left is not None and c.right is not None "
+                                    "and old(alloc(c.left)) and old(alloc(c.right))), 'ref:Constraint')"),
+        ("A6c_untouched_by_active", "untouched_by_active(variables)"),
     ]
     cuts = {}
     if off:
